@@ -124,8 +124,40 @@ def _prim_kind(ta: Any) -> Optional[str]:
     return None if pt is None else pt.name
 
 
+MAX_CANDIDATE = 80   # longer strings are not tried (Python's re backtracks exponentially on some patterns)
+
+
+def _quick_match(pattern: str, value: str) -> Optional[bool]:
+    """``re.match`` guarded against catastrophic backtracking: None = not decided."""
+    if len(value) > MAX_CANDIDATE:
+        return None
+    key = (pattern, value)
+    if key in _MATCH_CACHE:
+        return _MATCH_CACHE[key]
+    import signal
+
+    def on_alarm(signum: int, frame: Any) -> None:
+        raise TimeoutError()
+
+    old = signal.signal(signal.SIGALRM, on_alarm)
+    signal.setitimer(signal.ITIMER_REAL, 0.5)
+    try:
+        res: Optional[bool] = re.match(pattern, value) is not None
+    except (re.error, TimeoutError):
+        res = None
+    finally:
+        signal.setitimer(signal.ITIMER_REAL, 0)
+        signal.signal(signal.SIGALRM, old)
+    _MATCH_CACHE[key] = res
+    return res
+
+
+_MATCH_CACHE: Dict[Tuple[str, str], Optional[bool]] = {}
+
+
 def broken(kindp: Optional[str], is_list: bool, cons: Any, value: Any) -> List[str]:
-    """Names of the inferred constraints (length / pattern / size) that ``value`` breaks."""
+    """Names of the inferred constraints (length / pattern / size) that ``value`` breaks
+    (``pattern?<i>``: could not be decided quickly)."""
     out: List[str] = []
     if cons is None:
         return out
@@ -145,11 +177,11 @@ def broken(kindp: Optional[str], is_list: bool, cons: Any, value: Any) -> List[s
                 out.append("maxItems")
     if kindp == "STR" and isinstance(value, str) and cons.patterns:
         for i, p in enumerate(cons.patterns):
-            try:
-                if re.match(p.pattern, value) is None:
-                    out.append(f"pattern{i}")
-            except re.error:
-                pass
+            verdict = _quick_match(p.pattern, value)
+            if verdict is False:
+                out.append(f"pattern{i}")
+            elif verdict is None:
+                out.append(f"pattern?{i}")
     return out
 
 
@@ -173,14 +205,14 @@ def _string_candidates(v: str, cons: Any, rng: random.Random) -> List[str]:
             if s is not None:
                 seeds.append(s)
     for s in seeds:
-        if hi is not None:
+        if hi is not None and hi < MAX_CANDIDATE:
             if s:
                 for ch in {s[-1], s[0], s[len(s) // 2]}:
                     k = hi + 1 - len(s)
                     if k > 0:
                         cands += [s + ch * k, ch * k + s, s[: len(s) // 2] + ch * k + s[len(s) // 2:]]
             cands.append("a" * (hi + 1))
-        if lo is not None and lo >= 1:
+        if lo is not None and 1 <= lo <= MAX_CANDIDATE:
             cands += [s[: lo - 1], s[len(s) - (lo - 1):] if lo > 1 else "", "a" * (lo - 1)]
         for _ in range(4):
             if s:
@@ -210,31 +242,33 @@ def constraint_mutants(site: Site, rng: random.Random) -> Iterator[Tuple[Any, st
         targets += [f"pattern{i}" for i in range(len(cons.patterns or []))]
         if not targets:
             return
-        cands = _string_candidates(v, cons, rng)
+        cands = [c for c in dict.fromkeys(_string_candidates(v, cons, rng)) if len(c) <= MAX_CANDIDATE]
+        verdicts = {c: broken(kindp, False, cons, c) for c in cands}
+        cands = [c for c in cands if not any(x.startswith("pattern?") for x in verdicts[c])]
         for t in targets:
-            exact = [c for c in cands if broken(kindp, False, cons, c) == [t]]
-            loose = [c for c in cands if t in broken(kindp, False, cons, c)]
+            exact = [c for c in cands if verdicts[c] == [t]]
+            loose = [c for c in cands if t in verdicts[c]]
             pick = exact[0] if exact else (loose[0] if loose else None)
             if pick is None:
                 continue
-            what = broken(kindp, False, cons, pick)
+            what = verdicts[pick]
             kind = "pattern" if t.startswith("pattern") else t
             bound = lc.min_value if t == "minLength" else lc.max_value if t == "maxLength" else cons.patterns[int(t[7:])].pattern
             yield pick, kind, f"{t} ({bound!r}) of {'/'.join(map(str, site.path))} with {pick!r}" + ("" if what == [t] else f" (also breaks {what})")
     elif kindp == "BYTEARRAY" and isinstance(v, str) and lc is not None:
         # exclusion 2: only lengths whose base64 text leaves the window of the bound
-        if lc.min_value is not None and b64len(lc.min_value) >= 4:
+        if lc.min_value is not None and b64len(lc.min_value) >= 4 and lc.min_value < 4000:
             n = 3 * (b64len(lc.min_value) // 4 - 1)
             yield base64.b64encode(bytes(range(n))).decode("ascii"), "bytes-min", \
                 f"len >= {lc.min_value} of {'/'.join(map(str, site.path))} with {n} bytes"
-        if lc.max_value is not None:
+        if lc.max_value is not None and lc.max_value < 4000:
             n = 3 * (b64len(lc.max_value) // 4) + 1
             yield base64.b64encode(bytes(k % 251 for k in range(n))).decode("ascii"), "bytes-max", \
                 f"len <= {lc.max_value} of {'/'.join(map(str, site.path))} with {n} bytes"
     elif is_list and isinstance(v, list) and lc is not None:
         if lc.min_value is not None and lc.min_value >= 1 and len(v) >= lc.min_value:
             yield v[: lc.min_value - 1], "minItems", f"len >= {lc.min_value} of {'/'.join(map(str, site.path))}"
-        if lc.max_value is not None and len(v) >= 1:
+        if lc.max_value is not None and len(v) >= 1 and lc.max_value < 200:
             yield v + [v[-1]] * (lc.max_value + 1 - len(v)), "maxItems", f"len <= {lc.max_value} of {'/'.join(map(str, site.path))}"
 
 
